@@ -289,7 +289,8 @@ def do_check(pid, tier, keep=False, only=None):
         'violations': len(violations),
     }
     if not only:
-        dump_json(os.path.join(EVIDENCE, f'{pid}.json'), ev)
+        # seeded-change experiments (vx/seedtest.sh) must not overwrite the committed evidence
+        dump_json(os.path.join(os.environ.get('VERIF_EVIDENCE_DIR', EVIDENCE), f'{pid}.json'), ev)
 
     for k in known_hits:
         print(f'KNOWN-FINDING: property={pid} {k["id"]} {k["what"]}')
